@@ -136,6 +136,9 @@ pub fn c08(tier: &str) -> i32 {
     absorb_env(&mut out, &c, 1, 3, run_env::<1, 3>(&c), "env", true);
     let c = ecfg("Env<10>: tick 2", false, &[2], 50, s - 1, 2, 0, &cl);
     absorb_env(&mut out, &c, 1, 10, run_env::<1, 10>(&c), "env", true);
+    let mut c = ecfg("Env<3>: start time 7, step size 5", false, &[1], 5, s, 2, 0, &cl);
+    c.start = 7;
+    absorb_env(&mut out, &c, 1, 3, run_env::<1, 3>(&c), "env", true);
     // who owns the orders (everywhere else each order has its own trader id)
     crate::ops::set_traders(7, 1);
     let c = ecfg("Env<3>: every order from one trader", false, &[1], 50, s - 1, 2, 0, &cl);
@@ -266,6 +269,14 @@ pub fn c11(tier: &str) -> i32 {
     absorb_env(&mut out, &c, 1, 3, run_env::<1, 3>(&c), "env", false);
     let c = ecfg("Env<10>: tick 2", false, &[2], 100, s - 1, 3, 0, &cl);
     absorb_env(&mut out, &c, 1, 10, run_env::<1, 10>(&c), "env", false);
+    // steps that do not lie on multiples of the step size: start time 7 with step size 5 (batches of up to four
+    // instructions fit), single- and multi-asset
+    let mut c = ecfg("Env<3>: start time 7, step size 5", false, &[1], 5, s, 3, 0, &cl);
+    c.start = 7;
+    absorb_env(&mut out, &c, 1, 3, run_env::<1, 3>(&c), "env", false);
+    let mut c = ecfg("MarketEnv<2,3>: start time 1003, step size 10", true, &[1, 2], 10, 3, 2, 0, &cl);
+    c.start = 1003;
+    absorb_env(&mut out, &c, 2, 3, run_env::<2, 3>(&c), "market-env", false);
     // from an asymmetric resting book with three levels on one side
     let mut c = ecfg("Env<3>: from an asymmetric three-level book", false, &[1], 100, s - 1, 2, 0, &cl);
     c.base = vec![
